@@ -1,4 +1,200 @@
-import OtelVerif.Model.C01
-/-! C01 property theorems (stub) -/
+import OtelVerif.Lemmas.C01
+import OtelVerif.Lemmas.C01Drain
+import OtelVerif.Lemmas.C01Codec
+import OtelVerif.Lemmas.C01Trace
+/-!
+# C01 — the persistent sending queue never loses an accepted request across crashes
+
+All theorems quantify over EVERY label list `ls : List Label` (no bound on its length): any script of
+`offer`/`read`/`done`/`shutdown`/`start`, continued by `tick`s one storage call at a time, with `crash`
+at any position and any number of times — also between the storage calls of `start` (recovery) and right
+after another `crash`/`start`.  `run k ls` is the model of the repaired code (`Model/C01.lean`), tied to
+the Go code by the differential harness `harness/c01/pq_test.go` on every run.
+
+Requests are compared by value (`id`, `size`); the statements are tight for scripts that offer pairwise
+different requests (the harness always does).
+-/
 namespace OtelVerif.C01
+
+/-- **No loss.** Every request whose enqueue batch was committed (a superset of "Offer returned nil", see
+`C01_offer_ok_accepted`) is, after any script with any crashes, either finalised (a hand-off of it
+completed with a final outcome) or recoverable from the durable state alone: stored under an index that
+is listed in `di` or lies in `[ri, wi)`. -/
+theorem C01_no_loss (k : Conf) (ls : List Label) :
+    ∀ r ∈ (run k ls).accepted, r ∈ (run k ls).finalised ∨ Recoverable (run k ls).st r :=
+  (inv_run k ls).main
+
+/-- `accepted` really contains every request for which `Offer` returned nil -/
+theorem C01_offer_ok_accepted (c : Cfg) (m : Mem) (r : Req) (h : c.ph = .live m .idle)
+    (hok : (fire c (.offer r)).res = .offerOk) : r ∈ (fire c (.offer r)).accepted := by
+  simp only [fire, h] at hok ⊢
+  unfold doOffer at hok ⊢
+  dsimp only at hok ⊢
+  by_cases hfull : m.size + c.k.sizeof r > c.k.cap
+  · rw [if_pos hfull] at hok; cases hok
+  · rw [if_neg hfull]; exact List.mem_cons_self
+
+/-- **A request leaves storage only after a final hand-off.** -/
+theorem C01_delete_only_final (k : Conf) (ls : List Label) :
+    ∀ r ∈ (run k ls).accepted, ¬ InStore (run k ls).st r → r ∈ (run k ls).finalised := by
+  intro r hr hns
+  rcases C01_no_loss k ls r hr with hf | hrec
+  · exact hf
+  · exact absurd hrec.inStore hns
+
+/-- a request is finalised only after it was handed over -/
+theorem C01_final_was_handed (k : Conf) (ls : List Label) :
+    ∀ r ∈ (run k ls).finalised, r ∈ (run k ls).handed :=
+  (inv_run k ls).fin
+
+/-- **A hand-off interrupted by shutdown leaves the request stored**: completing with a shutdown error does not
+touch storage at all (in any configuration) … -/
+theorem C01_shutdown_err_keeps_store (c : Cfg) (i : Nat) : (fire c (.done i .shutdownErr)).st = c.st := by
+  simp only [fire]
+  split
+  · simp only [doDone]; split <;> rfl
+  · rfl
+
+/-- … and does not finalise it, so by `C01_no_loss` it stays recoverable for the next start. -/
+theorem C01_shutdown_err_not_final (c : Cfg) (i : Nat) :
+    (fire c (.done i .shutdownErr)).finalised = c.finalised := by
+  simp only [fire]
+  split
+  · simp only [doDone]; split <;> rfl
+  · rfl
+
+/-- the store invariant of every reachable configuration (`ri ≤ wi`, dispatched indexes below `ri`, no
+duplicates in `di`, no holes in `[ri, wi)`) -/
+theorem C01_reachable_store_inv (k : Conf) (ls : List Label) : StInv (run k ls).st := (inv_run k ls).st
+
+/-- **Handed at least once, in the current or a later incarnation.**  From ANY reachable configuration (in the
+middle of any operation, dead or alive): let the process die, start again and drain; then every accepted
+request has been handed to the consumer at least once (before or during that drain), and the durable queue is
+empty.  `restart`/`drainAll` are total functions of the model (`Lemmas/C01Drain.lean`). -/
+theorem C01_handed_at_least_once (k : Conf) (ls : List Label) :
+    ∀ r ∈ (run k ls).accepted, r ∈ (drainAll (restart (run k ls))).handed := by
+  intro r hr
+  have hi := inv_run k ls
+  obtain ⟨hready, hi'⟩ := restart_ready hi
+  obtain ⟨hrN, hiN, hRW, _, _⟩ := drain_spec _ (restart (run k ls)) hi' hready rfl
+  have hacc : r ∈ (drainAll (restart (run k ls))).accepted := by
+    unfold drainAll; rw [drain_accepted, restart_accepted]; exact hr
+  rcases hiN.main r hacc with hf | ⟨i, _, hc⟩
+  · exact hiN.fin r hf
+  · exfalso
+    obtain ⟨_, _, _, _, hdi⟩ := hrN
+    rcases hc with hd | ⟨h1, h2⟩
+    · rw [hdi] at hd; simp at hd
+    · omega
+
+/-- after restart + drain nothing is left in the durable queue -/
+theorem C01_drain_empties (k : Conf) (ls : List Label) :
+    (drainAll (restart (run k ls))).st.R = (drainAll (restart (run k ls))).st.W ∧
+    (drainAll (restart (run k ls))).st.di = [] := by
+  have hi := inv_run k ls
+  obtain ⟨hready, hi'⟩ := restart_ready hi
+  obtain ⟨hrN, _, hRW, _, _⟩ := drain_spec _ (restart (run k ls)) hi' hready rfl
+  obtain ⟨_, _, _, _, hdi⟩ := hrN
+  exact ⟨hRW, hdi⟩
+
+/-- **Drain, in a later incarnation.**  On any store that satisfies the store invariant, a NEW process
+(history variables empty) that starts and drains hands over every recoverable request — so the hand-off
+counted here happens in the later incarnation. -/
+theorem C01_drain (k : Conf) (s : Store) (hs : StInv s) :
+    ∀ r, Recoverable s r → r ∈ (drainAll (restart { k := k, st := s })).handed := by
+  intro r hr
+  have hi := inv_fresh k hs
+  obtain ⟨hready, hi'⟩ := restart_ready hi
+  obtain ⟨i, hit, hc⟩ := recov_restart hi hr
+  obtain ⟨_, _, _, _, hall⟩ := drain_spec _ (restart { k := k, st := s }) hi' hready rfl
+  obtain ⟨_, _, _, _, hdi⟩ := hready
+  rcases hc with hd | ⟨h1, h2⟩
+  · rw [hdi] at hd; simp at hd
+  · exact hall i r h1 h2 hit
+
+/-- `C01_drain` for the stores of reachable configurations -/
+theorem C01_drain_reachable (k : Conf) (ls : List Label) :
+    ∀ r, Recoverable (run k ls).st r → r ∈ (drainAll (restart { k := k, st := (run k ls).st })).handed :=
+  C01_drain k _ (C01_reachable_store_inv k ls)
+
+/-! ### index codecs -/
+
+open Codec in
+theorem C01_index_codec (v : Nat) (h : v < 2 ^ 64) : bytesToItemIndex (some (itemIndexToBytes v)) = .ok v := by
+  unfold bytesToItemIndex itemIndexToBytes
+  have hl := length_leBytes 8 v
+  simp only [hl, Nat.lt_irrefl, if_false]
+  rw [List.take_of_length_le (by omega), leVal_leBytes]
+  have : (256 : Nat) ^ 8 = 2 ^ 64 := by decide
+  rw [this, Nat.mod_eq_of_lt h]
+
+open Codec in
+theorem C01_index_array_codec (xs : List Nat) (hlen : xs.length < 2 ^ 32) (hx : ∀ x ∈ xs, x < 2 ^ 64) :
+    bytesToItemIndexArray (itemIndexArrayToBytes xs) = .ok xs := by
+  unfold bytesToItemIndexArray itemIndexArrayToBytes
+  have h4 := length_leBytes 4 xs.length
+  have hlenb : (leBytes 4 xs.length ++ xs.flatMap (leBytes 8)).length = 4 + xs.length * 8 := by
+    rw [List.length_append, h4, length_flatMap_leBytes]
+  have hsize : leVal ((leBytes 4 xs.length ++ xs.flatMap (leBytes 8)).take 4) = xs.length := by
+    rw [take_leBytes_append, leVal_leBytes]
+    have : (256 : Nat) ^ 4 = 2 ^ 32 := by decide
+    rw [this, Nat.mod_eq_of_lt hlen]
+  have hdrop : (leBytes 4 xs.length ++ xs.flatMap (leBytes 8)).drop 4 = xs.flatMap (leBytes 8) :=
+    drop_leBytes_append 4 _ _
+  rw [if_neg (by omega), if_neg (by omega)]
+  dsimp only
+  rw [hsize, hdrop]
+  cases xs with
+  | nil => rfl
+  | cons x t =>
+    rw [if_neg (by simp), if_neg (by rw [length_flatMap_leBytes]; omega)]
+    rw [chunks_flatMap _ hx]
+
+/-! ### the search oracle is sound -/
+
+/-- the executable checker evaluated by the driver on the implementation's observations: if it accepts a trace,
+the trace satisfies clause 2 (accepted ⇒ finalised or still stored at every dump) … -/
+theorem C01_check_sound (t : List Ev) : checkStored t = true → StoredOK t := checkStored_sound t
+
+/-- … and clause 1 (every accepted request was handed over) -/
+theorem C01_check_handed_sound (t : List Ev) : checkHanded t = true → HandedOK t := checkHanded_sound t
+
+/-! ### non-vacuity -/
+
+section Examples
+
+def exA : Req := ⟨1, 1⟩
+def exB : Req := ⟨2, 1⟩
+def exC : Req := ⟨3, 1⟩
+
+/-- enqueue A B C, dequeue A and B, die; restart and die inside recovery right after the first move batch;
+restart completely; dequeue one and complete it with a shutdown error; die -/
+def exScript : List Label :=
+  [.start, .tick, .offer exA, .offer exB, .offer exC, .read, .tick, .read, .tick, .crash,
+   .start, .tick, .tick, .tick, .crash,          -- Batch(ri,wi); Get di; retrieve; move A; †
+   .start, .tick, .tick, .tick, .tick,           -- recovery completes (one item left to move)
+   .read, .tick, .done 2 .shutdownErr, .crash]
+
+example : (run { cap := 8 } exScript).accepted = [exC, exB, exA] := by decide
+example : (run { cap := 8 } exScript).finalised = [] := by decide
+example : (run { cap := 8 } exScript).handed = [exC, exB, exA] := by decide
+-- C was handed and interrupted by shutdown: still dispatched (`di = [2]`), A and B were moved to 3 and 4
+example : (run { cap := 8 } exScript).st.di = [2] ∧ (run { cap := 8 } exScript).st.R = 3 ∧
+    (run { cap := 8 } exScript).st.W = 5 := by decide
+example : (run { cap := 8 } exScript).st.items 2 = some exC ∧ (run { cap := 8 } exScript).st.items 3 = some exA ∧
+    (run { cap := 8 } exScript).st.items 4 = some exB ∧ (run { cap := 8 } exScript).st.items 0 = none := by decide
+-- the crash really landed inside recovery: A moved, B not yet
+example : (run { cap := 8 } (exScript.take 15)).st.di = [1] ∧ (run { cap := 8 } (exScript.take 15)).st.W = 4 := by decide
+-- restart + drain of a fresh process hands all three over again, in queue order A B C
+example : (drainAll (restart { k := { cap := 8 }, st := (run { cap := 8 } exScript).st })).handed = [exC, exB, exA] := by decide
+example : Recoverable (run { cap := 8 } exScript).st exC := ⟨2, by decide, Or.inl (by decide)⟩
+-- the codecs on a concrete array and a malformed buffer
+example : Codec.itemIndexArrayToBytes [1, 258] = [2,0,0,0, 1,0,0,0,0,0,0,0, 2,1,0,0,0,0,0,0] := by decide
+example : Codec.bytesToItemIndexArray [2,0,0,0, 1,0,0,0,0,0,0,0] = .error "invalid" := rfl
+-- the trace checker rejects a trace with a lost request and accepts the repaired behaviour
+example : checkStored [.accept 1, .dump [1], .hand 1, .dump [1], .dump []] = false := by decide
+example : checkStored [.accept 1, .dump [1], .hand 1, .final 1, .dump []] = true := by decide
+
+end Examples
+
 end OtelVerif.C01
